@@ -56,6 +56,24 @@ def mk_particle(spec, n):
 
 
 def mk_events(case):
+    if case.get("share"):
+        # particles with identical data in different events are ONE Particle object that sits in several event lists
+        # (mixed events, a common pool); within one event every entry is its own object
+        pool, out = {}, []
+        for ev in case["events"]:
+            used, l = set(), []
+            for s in ev:
+                key = json.dumps(s, sort_keys=True)
+                if key in used or key not in pool:
+                    obj = mk_particle(s, case["n"])
+                    if key not in pool:
+                        pool[key] = obj
+                else:
+                    obj = pool[key]
+                used.add(key)
+                l.append(obj)
+            out.append(l)
+        return out
     return [[mk_particle(s, case["n"]) for s in ev] for ev in case["events"]]
 
 
@@ -355,6 +373,14 @@ def gen_case(rng, small=False, errors=True):
         case["bins_repr"] = rng.choice(["list", "list", "int_list", "ndarray", "int_ndarray"])
     if rng.random() < 0.2:
         case["reuse"] = rng.choice(["inner", "outer"])
+    if len(evs) > 1 and rng.random() < 0.15:
+        # some particles of the first events also belong to later events - as the very same objects
+        for j in range(1, len(evs)):
+            src = evs[rng.randrange(j)]
+            for s in rng.sample(src, min(len(src), rng.randint(1, 3))):
+                if evs[j]:
+                    evs[j][rng.randrange(len(evs[j]))] = dict(s)
+        case["share"] = True
     if errors and rng.random() < 0.03:
         case["k"] = rng.choice([3, 5, 8])
     if errors and rng.random() < 0.03:
